@@ -1,4 +1,4 @@
-REPO_COMMITS = ["0e45a8e", "f51d74e", "e08c0a5", "7c6f8e4", "33cf0bf", "a187bb0", "a08c8ef", "a09d5b7", "0ea38a2", "2e5f874", "0a1ffee", "684d35f", "eafd2f0"]
+REPO_COMMITS = ["0e45a8e", "f51d74e", "e08c0a5", "7c6f8e4", "33cf0bf", "a187bb0", "a08c8ef", "a09d5b7", "0ea38a2", "2e5f874", "0a1ffee", "684d35f", "eafd2f0", "9d5bf99", "790fbd0", "21822bf", "d0c90be"]
 NOT_APPLICABLE = {}
 CHECKS = {
  "C05": dict(
@@ -37,4 +37,8 @@ CHECKS = {
   text="Held-on-what-was-observed: wrappers on euler (hence the six named conversions), eq2sdss, sdss2eq, eq2xyz, xyz2eq, shiftlon/shiftra judge every observed call on the sky against long-double reference rotations built from the documented pole/node constants (ranges, finiteness, unit length, congruence mod 360); the driver adds inverse round trips, isometry on point pairs, chained-vs-direct and rotate's proper-isometry/inverse checks, with rings down to 1e-9 deg from the poles of both the source and the target system.",
   note="Trusts numpy long-double trigonometry. B1950 reference constants are the published definitions (not in the file); B1950 ecliptic<->galactic is the composition of the two reference rotations.",
   technique="API-boundary monitor with long-double rotation-matrix oracle; metamorphic round-trip/isometry relations"),
+ "C19": dict(
+  text="Held-on-what-was-observed: wrappers on randcap and randsphere check every returned point (count, ranges, long-double separation from the centre <= r + 1e-9 deg, returned radius == separation, box membership) with seeded legacy/new generators and with a duck-typed generator handing out boundary deviates (rim of the cap, cardinal position angles); Generator.sample is fed known deviates through a stub and compared with an own long-double inverse of the own trapezoid cumulative; the Cholesky samplers are checked by solving back to exactly the multiset of deviates a recording source handed out; random_indices for range/count/uniqueness; reproducibility by running every seeded call twice.",
+  note="Trusts numpy long-double trigonometry, numpy.linalg.cholesky/solve (shared with the code). Deviates below the first tabulated cumulative value are unconstrained.",
+  technique="API-boundary monitor with geometric oracle; stub/recording deviate sources making the sampler's map deterministic"),
 }
